@@ -1190,6 +1190,76 @@ example : ∃ n, wzone.find [L "example", L "sub"] = some n ∧ delegTypes n.typ
   (unsigned_passed_needs_insecure_delegation (fun _ => none) (uAuth [L "example", L "sub", L "a"]) (by decide)).2.2.2.2
     wzone wzone_wf rfl wzone_chain_ok (by decide)
 
+/-! ### `Resolver.answer` on wildcard-expanded answers (`answerStep`, compared line by line: `z ans`, `h ans`) -/
+
+/-- **AD on a positive answer needs the signer zone's own next-closer denial.**
+For every answer section (any owners, any RRSIG Labels values), every
+authority section AS SENT (records of other zones included) and any hash:
+`Resolver.answer` does not fail only if (CD = 1, then no AD, or) the question
+name and every answer owner lie in the signer zone, every in-zone RRset
+verified and the wildcard check — run over the authority section FILTERED to
+the signer zone, because nothing authenticated a record owned elsewhere —
+found a denial of the next closer name for every expanded RRSIG; AD = that
+check's `secure` verdict. -/
+theorem answer_passes_only_with_own_zone_denial (H : HashFn) (i : AnsIn) (hcd : i.reqCD = false)
+    (h : (answerStep H i).servfail = false) :
+    (∀ g ∈ i.gs, nameInZone g.owner i.signer = true) ∧ i.sigsGood = true ∧
+    ∃ secure, ansWildcard H i = .ok secure ∧ (answerStep H i).ad = secure := by
+  unfold answerStep at h ⊢
+  simp only [hcd, Bool.false_eq_true, ↓reduceIte] at h ⊢
+  cases hgs : i.gs with
+  | nil => rw [hgs] at h; simp [authServfail] at h
+  | cons g rest =>
+    rw [hgs] at h
+    simp only [] at h ⊢
+    cases hq : nameInZone g.owner i.signer <;> simp only [hq, Bool.not_true, Bool.not_false, Bool.false_eq_true, ↓reduceIte] at h
+    · simp [authServfail] at h
+    cases hall : ((g :: rest).all fun x => nameInZone x.owner i.signer) <;>
+      simp only [hall, Bool.not_true, Bool.not_false, Bool.false_eq_true, ↓reduceIte] at h
+    · simp [authServfail] at h
+    cases hg : i.sigsGood <;> simp only [hg, Bool.not_true, Bool.not_false, Bool.false_eq_true, ↓reduceIte] at h
+    · simp [authServfail] at h
+    cases hw : ansWildcard H i with
+    | error e => rw [hw] at h; simp [authServfail] at h
+    | ok b =>
+      refine ⟨fun x hx => by simpa using (List.all_eq_true.mp hall) x hx, rfl, b, rfl, ?_⟩
+      simp
+
+/-- **End to end, NSEC.**  A well-formed NSEC-signed zone, an authority section
+whose NSEC records are any selection of the zone's genuine chain plus records
+of OTHER zones (whatever their spans take in), no in-zone NSEC3, signer = apex,
+CD = 0: if `Resolver.answer` passes the answer on, then for every RRset whose
+RRSIG claims wildcard expansion the next closer name is neither an owner nor
+an empty non-terminal of the zone — in particular the genuine `*.<zone>` RRset
+cannot be replayed over a name that exists (RFC 4035 §5.3.4). -/
+theorem answer_wildcard_end_to_end (H : HashFn) (z : Zone) (hz : z.WF) (i : AnsIn)
+    (hsig : i.signer = z.apex) (hs : SetOK z i.nsec)
+    (h3 : (i.nsec3.filter fun r => nameInZone r.owner i.signer).isEmpty = true)
+    (hcd : i.reqCD = false) (h : (answerStep H i).servfail = false) :
+    (answerStep H i).ad = true ∧
+    ∀ g ∈ i.gs, g.labels < g.owner.length → z.inTree g.nextCloser = false ∧ g.nextCloser ∉ z.authNames := by
+  obtain ⟨_, _, b, hb, had⟩ := answer_passes_only_with_own_zone_denial H i hcd h
+  unfold ansWildcard at hb
+  simp only [h3, Bool.not_true, Bool.false_eq_true, ↓reduceIte] at hb
+  rw [hsig] at hb
+  obtain ⟨hb1, hall⟩ := wildcard_answer_sound z hz i.nsec hs i.gs b hb
+  exact ⟨by rw [had, hb1], hall⟩
+
+-- non-vacuity: the genuine `*.example.` expansion over `alias.example.` passes with the zone's own denial;
+-- with ONLY a foreign record whose span takes in the whole zone (the seeded C02-22 shape) it is refused;
+-- `*.b.example.` signed with Labels = 1 (C02-24 shape) needs the denial of `b.example.` and is refused
+def vAns (gs : List AnsSig) (nsec : List Nsec) : AnsIn :=
+  { signer := vzone.apex, gs := gs, reqCD := false, sigsGood := true, nsec := nsec, nsec3 := [] }
+example : answerStep (fun _ => none) (vAns [⟨[L "example", L "alias"], 1⟩] vzone.chain)
+      = { servfail := false, ad := true, marked := false, aggressive := false } ∧
+    (answerStep (fun _ => none) (vAns [⟨[L "example", L "alias"], 1⟩]
+      [{ owner := [], next := [L "example0"], types := [2, 46, 47] }])).servfail = true ∧
+    (answerStep (fun _ => none) (vAns [⟨[L "example", L "b", star], 1⟩] vzone.chain)).servfail = true := by decide
+example : vzone.inTree [L "example", L "alias"] = false :=
+  ((answer_wildcard_end_to_end (fun _ => none) vzone (by constructor <;> decide)
+      (vAns [⟨[L "example", L "alias"], 1⟩] vzone.chain) rfl (fun _ hr => Or.inl hr) (by decide) rfl (by decide)).2
+    ⟨[L "example", L "alias"], 1⟩ (by simp [vAns]) (by decide)).1
+
 -- non-vacuity: a proven NXDOMAIN is passed on with AD, provenance and `Aggressive`;
 -- the same records without signatures, or for an RRSIG question, are not
 example : authorityStep (fun _ => none)
@@ -1445,6 +1515,133 @@ example : lookupCut { now := 0, cuts := [{ denied := [[122], [98]], expires := 1
 
 -- non-vacuity: two signatures over one RRset, the earlier one decides
 example : proofExpiry 0 10800 none [300] none [⟨300, 300, 7⟩, ⟨300, 300, 7200⟩] = some 7 := by decide
+
+/-! ### the deadline of a synthesised denial (`denialProofResponse`, bound into the request tree by `Store.GetWithContext`) -/
+
+theorem minList_mem (m : Int) (l : List Int) : minList m l = m ∨ minList m l ∈ l := by
+  induction l generalizing m with
+  | nil => exact Or.inl rfl
+  | cons y t ih =>
+    unfold minList
+    by_cases hlt : y < m
+    · simp only [hlt, if_true]
+      rcases ih y with h | h
+      · exact Or.inr (by rw [h]; exact List.mem_cons_self ..)
+      · exact Or.inr (List.mem_cons_of_mem _ h)
+    · simp only [hlt, if_false]
+      rcases ih m with h | h
+      · exact Or.inl h
+      · exact Or.inr (List.mem_cons_of_mem _ h)
+
+/-- `usedExpiry` is at or before the SOA entry's deadline and the deadline of
+every entry the proof uses, and is one of those deadlines. -/
+theorem usedExpiry_spec (soa : Int) (exps : List Int) (idxs : List Nat) :
+    usedExpiry soa exps idxs ≤ soa ∧
+    (∀ k ∈ idxs, ∀ x, exps[k]? = some x → usedExpiry soa exps idxs ≤ x) ∧
+    (usedExpiry soa exps idxs = soa ∨ usedExpiry soa exps idxs ∈ exps) := by
+  unfold usedExpiry
+  obtain ⟨h1, h2⟩ := minList_le soa (idxs.filterMap fun k => exps[k]?)
+  refine ⟨h1, ?_, ?_⟩
+  · intro k hk x hx
+    exact h2 x (List.mem_filterMap.mpr ⟨k, hk, hx⟩)
+  · rcases minList_mem soa (idxs.filterMap fun k => exps[k]?) with h | h
+    · exact Or.inl h
+    · obtain ⟨k, _, hk⟩ := List.mem_filterMap.mp h
+      exact Or.inr (List.mem_of_getElem? hk)
+
+/-- **A synthesised denial is relied on only while every record that proves it
+is live.**  The deadline `lookupDenialProofWithExpiry` attaches to a synthesised
+answer — what the resolver-private route (`Store.GetWithContext`, answering the
+resolver's own DS / DNSKEY sub-queries) binds the whole request tree to, so
+that "no DS, the delegation is insecure" and everything derived from it cannot
+outlive the proof — lies in the future, at or before the zone's SOA entry's
+deadline, and is the SOA entry's deadline or the deadline of a live RRset of
+that zone (each of which is bounded by every TTL and RRSIG of its bundle:
+`proof_expiry_le_every_component`). -/
+theorem synthesised_deadline_sound (st : State) (H : SdnsVerif.Model.Nsec3.HashFn) (q : Name) (t : Nat) (e : Int)
+    (h : lookupProofExpiry st H q t = some e) :
+    st.now < e ∧ ∃ z ∈ st.zones, nameInZone q z.zone = true ∧ st.now < z.soaExpires ∧ e ≤ z.soaExpires ∧
+      (e = z.soaExpires ∨ (∃ x ∈ z.entries, st.now < x.expires ∧ e = x.expires) ∨
+        (∃ x ∈ z.entries3, st.now < x.expires ∧ e = x.expires)) := by
+  unfold lookupProofExpiry at h
+  simp only at h
+  generalize hl : ((st.zones.filter fun z => nameInZone q z.zone).mergeSort fun a b => a.zone.length ≥ b.zone.length) = l at h
+  have hsub : ∀ z ∈ l, z ∈ st.zones ∧ nameInZone q z.zone = true := by
+    intro z hz
+    rw [← hl] at hz
+    have := (List.mergeSort_perm _ _).mem_iff.mp hz
+    simpa [List.mem_filter] using this
+  clear hl
+  induction l with
+  | nil => simp [lookupProofExpiry.go] at h
+  | cons z rest ih =>
+    unfold lookupProofExpiry.go at h
+    split at h
+    · rename_i hlive
+      split at h
+      · rename_i e' hev
+        simp only [Option.some.injEq] at h
+        subst h
+        have hz := hsub z (List.mem_cons_self ..)
+        -- the deadline is the SOA's or a live entry's
+        have key : e' ≤ z.soaExpires ∧ (e' = z.soaExpires ∨ (∃ x ∈ z.entries, st.now < x.expires ∧ e' = x.expires) ∨
+            (∃ x ∈ z.entries3, st.now < x.expires ∧ e' = x.expires)) := by
+          unfold evalZoneExpiry at hev
+          simp only at hev
+          split at hev
+          · rename_i e'' hv
+            simp only [Option.some.injEq] at hev
+            subst hev
+            split at hv
+            · cases hv
+            · split at hv
+              · rename_i rc p he
+                simp only [Option.some.injEq] at hv
+                subst hv
+                obtain ⟨h1, _, h3⟩ := usedExpiry_spec z.soaExpires
+                  ((z.entries.filter fun e => st.now < e.expires).map (·.expires)) p
+                refine ⟨h1, ?_⟩
+                rcases h3 with h3 | h3
+                · exact Or.inl h3
+                · obtain ⟨x, hx, hxe⟩ := List.mem_map.mp h3
+                  have hx' := List.mem_filter.mp hx
+                  exact Or.inr (Or.inl ⟨x, hx'.1, by simpa using hx'.2, hxe.symm⟩)
+              · cases hv
+          · split at hev
+            · cases hev
+            · split at hev
+              · rename_i rc p he
+                simp only [Option.some.injEq] at hev
+                subst hev
+                obtain ⟨h1, _, h3⟩ := usedExpiry_spec z.soaExpires
+                  ((z.entries3.filter fun e => st.now < e.expires).map (·.expires)) p
+                refine ⟨h1, ?_⟩
+                rcases h3 with h3 | h3
+                · exact Or.inl h3
+                · obtain ⟨x, hx, hxe⟩ := List.mem_map.mp h3
+                  have hx' := List.mem_filter.mp hx
+                  exact Or.inr (Or.inr ⟨x, hx'.1, by simpa using hx'.2, hxe.symm⟩)
+              · cases hev
+        refine ⟨?_, z, hz.1, hz.2, hlive, key.1, key.2⟩
+        rcases key.2 with h' | ⟨x, _, hx, h'⟩ | ⟨x, _, hx, h'⟩
+        · rw [h']; exact hlive
+        · rw [h']; exact hx
+        · rw [h']; exact hx
+      · exact ih h (fun z' hz' => hsub z' (List.mem_cons_of_mem _ hz'))
+    · exact ih h (fun z' hz' => hsub z' (List.mem_cons_of_mem _ hz'))
+
+-- non-vacuity: one zone, SOA entry live until 100, the covering record until 40: the synthesised NXDOMAIN for
+-- `b.example.` carries the deadline 40
+def toyZoneState : ZoneState :=
+  { zone := [L "example"]
+    soaExpires := 100
+    entries := [⟨{ owner := [L "example"], next := [L "example", L "c"], types := [2, 6, 46, 47] }, 40⟩,
+                ⟨{ owner := [L "example", L "c"], next := [L "example"], types := [1, 46, 47] }, 70⟩] }
+theorem toy_evalZoneExpiry : evalZoneExpiry 10 (fun _ => none) toyZoneState [L "example", L "b"] 1 = some 40 := by decide
+example : lookupProofExpiry { now := 10, zones := [toyZoneState] } (fun _ => none) [L "example", L "b"] 1 = some 40 := by
+  have hz : nameInZone [L "example", L "b"] toyZoneState.zone = true := by decide
+  have hl : (10 : Int) < toyZoneState.soaExpires := by decide
+  simp [lookupProofExpiry, lookupProofExpiry.go, hz, hl, toy_evalZoneExpiry]
 
 end expiry
 
